@@ -1,6 +1,7 @@
 import NopModel.Rpc
 import NopModel.Properties.C01
 import NopModel.Lemmas.Push
+import NopModel.Lemmas.FungibleWire
 /-! C14 — RPC dispatch calls exactly the selected handler with the sent arguments. -/
 namespace Nop.Rpc
 open Nop
@@ -124,6 +125,17 @@ theorem C14_in_frame (sk : IntKind) (bs : List Bound) (n : Nat) (s s1 : Src) (r 
     (h : dispatch sk bs s = (r, s1)) (hok : r.status = none) :
     serve sk bs (n + 1) s = (r :: (serve sk bs n s1).1, (serve sk bs n s1).2) := by
   simp only [serve, h, hok]
+
+/-- **Fungible / conforming argument substitutions**: a caller (or a handler) whose argument
+types are fungible with the protocol's produces (expects) the very same request bytes, so every
+statement above applies unchanged: for argument tuples related by `IsFungible` and a value
+well-typed for both, `SendMethod` writes the same request. -/
+theorem C14_fungible_arguments (sk : IntKind) (m m' : Method) (hsel : m.sel = m'.sel)
+    (hf : fungible m.argsTy m'.argsTy = true) (args : Val)
+    (hv : valid m.argsTy args = true) (hv' : valid m'.argsTy args = true) :
+    request sk m args = request sk m' args := by
+  unfold request
+  rw [(wire m.argsTy m'.argsTy hf args hv hv').1 {}, hsel]
 
 /-- non-vacuity: two bound methods, two requests back to back followed by an unknown selector -/
 example :
